@@ -18,6 +18,19 @@ theorem ipv4_roundtrip (a b c d : Nat) (ha : a < 256) (hb : b < 256) (hc : c < 2
     ∃ t, ip4Ntoa [a, b, c, d] = some t ∧ ip4Aton t = some [a, b, c, d] :=
   ip4_roundtrip a b c d ha hb hc hd
 
+/-- "address text codecs used by A/AAAA/APL/IPSECKEY/…": `dns.ipv6.inet_aton(dns.ipv6.inet_ntoa(a)) == a` for every
+16-octet address — whatever zero run the printer selects for `::`, including the embedded-IPv4 forms
+`::a.b.c.d` and `::ffff:a.b.c.d`. -/
+theorem ipv6_roundtrip (a : Bytes) (hlen : a.length = 16) (ha : ∀ x ∈ a, x < 256) :
+    ∃ t, ip6Ntoa a = some t ∧ ip6Aton t = some a :=
+  ip6_roundtrip a hlen ha
+
+/-- non-vacuity and a reading aid: `2001:db8::1`, `::ffff:1.2.3.4`, `::` -/
+example : ip6Ntoa [0x20, 1, 0x0d, 0xb8, 0, 0, 0, 0, 0, 0, 0, 0, 0, 0, 0, 1]
+    = some [50, 48, 48, 49, 58, 100, 98, 56, 58, 58, 49] := by decide
+example : ip6Ntoa [0, 0, 0, 0, 0, 0, 0, 0, 0, 0, 255, 255, 1, 2, 3, 4]
+    = some [58, 58, 102, 102, 102, 102, 58, 49, 46, 50, 46, 51, 46, 52] := by decide
+
 /-- "with arbitrary octets in character-strings": the quoted form `"` ++ `_escapify(s)` ++ `"` of any octet string
 (all 256 values) is read by the tokenizer as exactly one QUOTED_STRING token whose raw value is the escaped text, and
 `Token.unescape_to_bytes` (the octet-correct path used by TXT-like types) gives back `s`. -/
@@ -116,13 +129,13 @@ theorem parseText_printText_partial (tn : String) (st : Style) (env : PEnv) (val
 
 /-- field kinds that have a round-trip lemma -/
 def kindProved : FK → Bool
-  | .uint _ | .ttl | .algo | .name | .ip4 | .salt => true
+  | .uint _ | .ttl | .algo | .name | .ip4 | .ip6 | .salt => true
   | .cstr _ _ q => q
   | _ => false
 
 /-- the record types whose every field kind is covered by `parseText_printText_partial` -/
 def provedTypes : List String :=
-  ["A", "NS", "CNAME", "PTR", "DNAME", "NSAP-PTR", "MX", "AFSDB", "RT", "KX", "LP", "PX", "SRV", "RP", "SOA",
+  ["A", "AAAA", "NS", "CNAME", "PTR", "DNAME", "NSAP-PTR", "MX", "AFSDB", "RT", "KX", "LP", "PX", "SRV", "RP", "SOA",
    "TXT", "SPF", "AVC", "NINFO", "RESINFO", "WALLET", "HINFO", "X25", "ISDN", "NAPTR", "DS", "DLV", "CDS",
    "TLSA", "SMIMEA", "SSHFP", "ZONEMD", "DNSKEY", "CDNSKEY", "DHCID", "OPENPGPKEY", "BRID", "HHIT", "L32", "NSEC3PARAM"]
 
